@@ -26,8 +26,9 @@ func jmpToFunctionValue(_, double uintptr) []byte {
 	res = append(res, movImm(_0b11, 1, d2d3)...)         // MOVK x26, double[32:16]
 	res = append(res, movImm(_0b11, 2, d4d5)...)         // MOVK x26, double[48:32]
 	res = append(res, movImm(_0b11, 3, d6d7)...)         // MOVK x26, double[64:48]
-	res = append(res, []byte{0x4A, 0x03, 0x40, 0xF9}...) // LDR x10, [x26]
-	res = append(res, []byte{0x40, 0x01, 0x1F, 0xD6}...) // BR x10
+	// x27 is the assembler temporary (REGTMP); x10 would clobber the 11th integer argument
+	res = append(res, []byte{0x5B, 0x03, 0x40, 0xF9}...) // LDR x27, [x26]
+	res = append(res, []byte{0x60, 0x03, 0x1F, 0xD6}...) // BR x27
 
 	return res
 }
